@@ -287,7 +287,8 @@ def check(case, rec):
     if what == "cli":
         import h5py
         from biom import load_table
-        from biom.cli.table_normalizer import normalize_table
+        from ..cli import command
+        normalize_table = command("normalize-table")
         mode = case["mode"]
         with tempfile.TemporaryDirectory(prefix="vf-c13-", dir=TMP) as d:
             inp, out = os.path.join(d, "in.biom"), os.path.join(d, "out.biom")
